@@ -157,7 +157,8 @@ class Check(BaseCheck):
                'excepthook': id(sys.excepthook), 'threading.excepthook': id(threading.excepthook), 'gc.enabled': gc.isenabled(), 'gc.threshold': gc.get_threshold(),
                'warnings.filters': len(warnings.filters), 'stdout': id(sys.stdout), 'tz': __import__('time').tzname, 'umask': None,
                'sigint': id(signal.getsignal(signal.SIGINT)), 'sigalrm': id(signal.getsignal(signal.SIGALRM)), 'default_timeout': __import__('socket').getdefaulttimeout(),
-               'stack_size': threading.stack_size(), 'displayhook': id(sys.displayhook), 'float_repr_style': sys.float_repr_style}
+               'stack_size': threading.stack_size(), 'displayhook': id(sys.displayhook), 'float_repr_style': sys.float_repr_style,
+               'decimal.flags': tuple(sorted(k.__name__ for k, v in decimal.getcontext().flags.items() if v)), 'decimal.traps': tuple(sorted(k.__name__ for k, v in decimal.getcontext().traps.items() if v))}
         return out
 
     def run(self, spec, rec):
@@ -463,6 +464,10 @@ class Check(BaseCheck):
             corpus = [rnd.choice(bad_formulas) if i % 2 else rnd.choice(ok_formulas) for i in range(K)]
         else:
             corpus = [rnd.choice(ok_formulas) for i in range(K)]
+        def raisev(k):
+            raise ValueError('host failure number %r at %s' % (k, 'x' * (int(k) % 7)))
+        p.set_function('RAISEV', raisev)
+        p.set_function('OWNXL', lambda k: hx.errors().XLError('#CUSTOM%d!' % int(k)))
         R = spec['R']
         blocks = [0] * (R + 3)
         census = [None, None]
@@ -486,9 +491,10 @@ class Check(BaseCheck):
             from ..models import cells as mcells
             lab = '%s%d' % (mcells.col_label(k % 16000), 1 + k % 900000)
             lab2 = '%s%d' % (mcells.col_label((k * 7) % 16000), 1 + (k * 13) % 900000)
-            t = k % 9
             return ['%s+1' % lab, '%s&"s%d"' % (lab, k), 'SUM(%s:%s)' % (lab, lab2), 'nv_%d_x' % k, 'NFN%d_(1)' % k, '%d*2' % (k + 1000), 'IFERROR(nv_%d_y,%d)' % (k, k),
-                    'xa+%d.5' % k, '$%s+%s' % (lab, lab2.lower())][t]
+                    'xa+%d.5' % k, '$%s+%s' % (lab, lab2.lower()),
+                    # failures whose text is new every time: a host exception with a varying message, an unknown error literal, a host-built error object
+                    'RAISEV(%d)' % k, '#E%d!' % k, 'OWNXL(%d)+1' % k, 'RAISEV(%d)&%s' % (k, lab)][k % 13]
 
         def one_pass():
             if spec['mix'] == 'fresh':
